@@ -168,7 +168,12 @@ def transform_case(sname, cfg, pname, train, seed, res=None):
 def dist_case(dname, cfg, pname, train, seed, res=None):
     d = DC.DSUBJECTS[dname]
     try:
-        m = DC.materialise(d, cfg, pname, seed, dtype=torch.float64, train=train)
+        m = DC.materialise(d, cfg, "pat1" if pname == "patX" else pname, seed, dtype=torch.float64, train=train)
+        if pname == "patX":
+            # an extreme but legal mixture: the logit of the first component of the first feature at -800 (its weight underflows to
+            # exactly 0 in a softmax); values are fine, gradients have to stay finite and correct as well
+            with torch.no_grad():
+                m._made.final_layer.bias[0] = -800.0
     except Exception as e:
         if res is not None:
             bump(res["skipped"], "cannot-construct: %s" % type(e).__name__)
@@ -236,6 +241,8 @@ def run_unit(unit):
     else:
         d = DC.DSUBJECTS[name]
         pats = [p for p in (("pat1", "init") if tier == "thorough" else ("pat1",)) if p in d.patterns] or ["init"]
+        if name == "MADEMoG":
+            pats = pats + ["patX"]
         sig = DC.dev_signature(d, cfg)
     for pname in pats:
         for train in (False, True):
